@@ -426,6 +426,17 @@ class OrderedMultiDict(dict):
             super().__delitem__(k)
         return v
 
+    def popitem(self):
+        """Remove and return the most-recently inserted ``(key, value)``
+        pair (LIFO, like :meth:`dict.popitem`). Other values under the
+        same key are kept, see :meth:`poplast`. Raises :exc:`KeyError`
+        if the dictionary is empty.
+        """
+        if not self:
+            raise KeyError('popitem(): %s is empty' % self.__class__.__name__)
+        k = self.root[PREV][KEY]
+        return k, self.poplast(k)
+
     def _remove(self, k):
         values = self._map[k]
         cell = values.pop()
